@@ -209,10 +209,18 @@ def siblings(ctx, n1, n2, src):
             a2.evaluate(x, y, "s1")
             x2, y2 = subject_arrays(2)
             a2.evaluate(x2, y2, "s2")
-            a1.evaluate(x2, y2, "s2")
-            a1.evaluate(x, y, "s1")
+            try:
+                a1.evaluate(x2, y2, "s2")
+                a1.evaluate(x, y, "s1")
+                err = None
+            except Exception as e:
+                err = f"{type(e).__name__}: {str(e)[:160]}"
         ctx.case(inp, True, sample=inp)
         ctx.count("sibling_pairs")
+        if err:
+            ctx.violation(f"C17 violated: after a neighbouring aggregator was created and used on {n2}, the aggregator on {n1} can no longer record its subjects: {err}", inp,
+                          key={"kind": "siblings"})
+            return
         for n in (n1, n2):
             p = os.path.join(d, n if n.endswith(".tsv") else n + ".tsv")
             with builtins.open(p, newline="") as f:
